@@ -22,6 +22,9 @@ type harnessRef struct {
 	QuickSecs, ThoroughSecs int
 	// ThoroughOnly harnesses are skipped in the quick tier
 	ThoroughOnly bool
+	// Guest: a harness that belongs to another property's check and is run here because it also
+	// exercises this property; it keeps its quick-tier bounds in this check's thorough tier
+	Guest bool
 }
 
 type checkDef struct {
@@ -170,7 +173,13 @@ func cmdCheck(args []string) int {
 			allComplete = false
 			continue
 		}
-		lim := sym.Limits{MaxWitnesses: 2 + 3*tier}
+		hTier := tier
+		if h.Guest {
+			hTier = 0
+		}
+		hcfg := cfg
+		hcfg.Tier = hTier
+		lim := sym.Limits{MaxWitnesses: 2 + 3*hTier}
 		secs := h.QuickSecs
 		if tier == 1 {
 			secs = h.ThoroughSecs
@@ -178,7 +187,7 @@ func cmdCheck(args []string) int {
 		if secs > 0 {
 			lim.Deadline = time.Now().Add(time.Duration(secs) * time.Second)
 		}
-		rep, err := sym.Explore(p, f, *workers, cfg, lim)
+		rep, err := sym.Explore(p, f, *workers, hcfg, lim)
 		if err != nil {
 			fmt.Printf("INCONCLUSIVE property=%s reason=engine error in %s: %v\n", id, h.Fn, err)
 			allComplete = false
@@ -240,7 +249,7 @@ func cmdCheck(args []string) int {
 				continue
 			}
 			seenMsg[v.Kind+v.Msg]++
-			out := replayNative(scratch, ov, pi, v, tier, nViol)
+			out := replayNative(scratch, ov, pi, v, hTier, nViol)
 			totalReplays += out.Runs
 			switch out.Verdict {
 			case "reproduced":
@@ -275,13 +284,13 @@ func cmdCheck(args []string) int {
 		}
 		// differential runs: passing paths must also pass natively
 		for i, w := range rep.Witnesses {
-			out := replayCexOnce(scratch, ov, pi, w, tier, 1000+i)
+			out := replayCexOnce(scratch, ov, pi, w, hTier, 1000+i)
 			totalReplays++
 			he.DiffRuns++
 			if out.Verdict == "reproduced" {
 				// a native failure of a path the engine let pass is reported only if it is
 				// repeatable (not a hiccup of the machine: hang and leak detection use timeouts)
-				again := replayCexOnce(scratch, ov, pi, w, tier, 2000+i)
+				again := replayCexOnce(scratch, ov, pi, w, hTier, 2000+i)
 				totalReplays++
 				if again.Verdict != "reproduced" {
 					fmt.Printf("NOTE property=%s harness=%s a native run failed once and passed when repeated: %s\n", id, h.Fn, firstLine(out.Detail))
